@@ -1127,7 +1127,6 @@ func subjectOpaque(c *Ctx, names []string, prop string) {
 	r.Extra["subject_opaque_functions_"+prop] = n
 }
 
-
 // builtinsWriteNoVarb: what Task.GetKey hands a builtin for a name that has a variable is the live entry of the scope
 // frame. A builtin's documented effects are on the point; storing into the entry it looked up changes the script's
 // variable (value or type) behind the script's back. Only a Varb the function allocated itself may be filled in.
